@@ -29,7 +29,10 @@ impl TempDir {
             .map(PathBuf::from)
             .unwrap_or_else(|_| std::env::temp_dir());
         let n = SEQ.fetch_add(1, Ordering::SeqCst);
-        let p = base.join(format!("oalv-{tag}-{}-{n}", std::process::id()));
+        // one scratch directory in three has a blank and a non-ASCII character in its name: workspace folder URIs and
+        // locators then carry percent-encoded bytes that must be decoded again to reach the files
+        let fancy = if n % 3 == 1 { " sp é" } else { "" };
+        let p = base.join(format!("oalv-{tag}-{}-{n}{fancy}", std::process::id()));
         let _ = std::fs::remove_dir_all(&p);
         std::fs::create_dir_all(&p).expect("cannot create scratch directory");
         let p = p.canonicalize().unwrap_or(p);
